@@ -14,6 +14,10 @@ namespace Pyemv
 def xor (data key : Bytes) : Bytes :=
   toLE data.length (fromLE data ^^^ fromLE (key.take data.length))
 
+/-- `tools.xor` as a host whose `sys.byteorder` is `"big"` evaluates it (tools.py 37-41 with the other byte order) -/
+def xorBigEndian (data key : Bytes) : Bytes :=
+  toBE data.length (fromBE data ^^^ fromBE (key.take data.length))
+
 /-- tools.py 61-65 -/
 def oddParity (v : Nat) : Nat :=
   let v := v ^^^ (v >>> 16)
